@@ -50,7 +50,7 @@ class Coder:
     def action(self, ch, t):
         if t.get('action_text'):
             return 'H(%r)' % t['action_text']        # exactly the text of another transition's guard
-        lines = ['A(%r, event, time)' % t['id']] + _send_code(t['sends'])
+        lines = ['A(%r, event, time)' % (t.get('code_id') or t['id'])] + _send_code(t['sends'])
         if t.get('active_call'):
             lines.append('active(%r)' % t['active_call'])
         if self.bump_v:
@@ -68,15 +68,16 @@ class Coder:
             if tg['idle'] is not None:
                 parts.append('idle(%r)' % tg['idle'])
             if t['guard']:
-                parts.append('G(%r, event, time)' % t['id'])
+                parts.append('G(%r, event, time)' % (t.get('code_id') or t['id']))
             return ' and '.join(parts)
         if t.get('tguard'):
             tg = t['tguard']
             a = 'after(%r)' % tg['after'] if tg['after'] is not None else 'None'
             i = 'idle(%r)' % tg['idle'] if tg['idle'] is not None else 'None'
-            return 'T(%r, %r, time, %s, %s) and G(%r, event, time)' % ('g:' + t['id'], t['source'], a, i, t['id']) \
-                if t['guard'] else 'T(%r, %r, time, %s, %s)' % ('g:' + t['id'], t['source'], a, i)
-        return 'G(%r, event, time)' % t['id'] if t['guard'] else None
+            cid = t.get('code_id') or t['id']
+            return 'T(%r, %r, time, %s, %s) and G(%r, event, time)' % ('g:' + cid, t['source'], a, i, cid) \
+                if t['guard'] else 'T(%r, %r, time, %s, %s)' % ('g:' + cid, t['source'], a, i)
+        return 'G(%r, event, time)' % (t.get('code_id') or t['id']) if t['guard'] else None
 
     def cond(self, ch, owner_is_transition, cid, kind):
         if kind == 'pre':
@@ -218,10 +219,11 @@ def tmap_from_actions(ch, sc, coder=None):
     coder = coder or Coder()
     by_action = {}
     for t in ch['transitions']:
-        by_action[(t['source'], (coder.action(ch, t) or '').strip())] = t['id']
+        by_action.setdefault((t['source'], (coder.action(ch, t) or '').strip()), []).append(t['id'])
     tmap = {}
     for tr in sc.transitions:
-        tmap[id(tr)] = by_action[(tr.source, (tr.action or '').strip())]
+        ids = by_action[(tr.source, (tr.action or '').strip())]
+        tmap[id(tr)] = ids.pop(0) if len(ids) > 1 else ids[0]       # (exact twins: which is which does not matter)
     return tmap
 
 
